@@ -83,57 +83,96 @@ def machine(R, lab, secrets):
     q = subprocess.run(args, cwd=vlib.REPO, env=vlib.goenv(env), capture_output=True, text=True, timeout=1800)
     if q.returncode != 0:
         raise vlib.Inconclusive("machine-level test binary did not build under %s:\n%s" % (lab, (q.stdout + q.stderr)[-3000:]))
-    with ThreadPoolExecutor(max_workers=2) as ex:
-        fw, rv = list(ex.map(lambda o: machine_run(R, lab, secrets, o, binary), ["fwd", "rev"]))
-    events = []
-    stats = {"secret-determined": 0, "position-determined": 0, "sporadic-filtered": 0, "undetermined": 0}
-    for kind in ("pc", "mem"):
-        byop = {}
-        for run_i, run in enumerate((fw, rv)):
-            pos = {}
-            for e, sg in run:
-                p = pos.get(e["name"], 0)
-                pos[e["name"]] = p + 1
-                byop.setdefault(e["name"], ({}, {}, {}, {}, e))
-                bysec, bypos = byop[e["name"]][run_i * 2], byop[e["name"]][run_i * 2 + 1]
-                bysec[e["secret"]] = (sg[kind], sg["ni"] if kind == "pc" else sg["nmem"])
-                bypos[p] = bysec[e["secret"]]
-        def classes(m):
-            # the partition induced by the signatures, labelled canonically (absolute data addresses differ between
-            # two processes, so signatures are only compared within a run)
-            ids, out = {}, {}
-            for k in sorted(m):
-                out[k] = ids.setdefault(m[k], len(ids))
-            return out
-        for name, (fsec, fpos, rsec, rpos, proto) in byop.items():
-            if classes(fsec) == classes(rsec):  # the signature follows the secret (or is simply constant)
-                stats["secret-determined"] += 1
-                for sec, (h, n) in sorted(fsec.items()):
-                    events.append({"op": "ct", "cfg": lab, "name": "machine-%s/%s" % (kind, name), "control": proto["control"], "secret": sec,
-                                   "sig": [int(h[i:i + 2], 16) for i in range(0, 16, 2)], "n": n, "seq": 0})
-            elif classes(fpos) == classes(rpos):
-                stats["position-determined"] += 1
-                R.notes.append("machine-%s/%s (%s): signature follows the position in the run, not the secret (process artefact): not judged"
-                               % (kind, name, lab))
-            else:
-                # sporadic deviations (the runtime's cooperative preemption detours through a function prologue, stack growth):
-                # a secret counts as deviating only if it leaves the majority signature of BOTH runs
-                def majority(m):
-                    cnt = {}
-                    for v in m.values():
-                        cnt[v] = cnt.get(v, 0) + 1
-                    top = sorted(cnt.items(), key=lambda kv: -kv[1])
-                    return None if (len(top) > 1 and top[0][1] == top[1][1]) else top[0][0]
-                mf, mr = majority(fsec), majority(rsec)
-                if proto["control"] or mf is None or mr is None or set(fsec) != set(rsec):
-                    stats["undetermined"] += 1
-                    R.notes.append("machine-%s/%s (%s): signature follows neither secret nor position: not judged" % (kind, name, lab))
-                    continue
-                stats["sporadic-filtered"] += 1
-                for sec in sorted(fsec):
-                    h, n = fsec[sec] if (fsec[sec] != mf and rsec[sec] != mr) else mf
-                    events.append({"op": "ct", "cfg": lab, "name": "machine-%s/%s" % (kind, name), "control": False, "secret": sec,
-                                   "sig": [int(h[i:i + 2], 16) for i in range(0, 16, 2)], "n": n, "seq": 0})
+    def pair():
+        with ThreadPoolExecutor(max_workers=2) as ex:
+            return list(ex.map(lambda o: machine_run(R, lab, secrets, o, binary), ["fwd", "rev"]))
+
+    def analyse(fw, rv, notes):
+        events = []
+        stats = {"secret-determined": 0, "position-determined": 0, "sporadic-filtered": 0, "undetermined": 0}
+        for kind in ("pc", "mem"):
+            byop = {}
+            for run_i, run in enumerate((fw, rv)):
+                pos = {}
+                for e, sg in run:
+                    p = pos.get(e["name"], 0)
+                    pos[e["name"]] = p + 1
+                    byop.setdefault(e["name"], ({}, {}, {}, {}, e))
+                    bysec, bypos = byop[e["name"]][run_i * 2], byop[e["name"]][run_i * 2 + 1]
+                    bysec[e["secret"]] = (sg[kind], sg["ni"] if kind == "pc" else sg["nmem"])
+                    bypos[p] = bysec[e["secret"]]
+            def classes(m):
+                # the partition induced by the signatures, labelled canonically (absolute data addresses differ between
+                # two processes, so signatures are only compared within a run)
+                ids, out = {}, {}
+                for k in sorted(m):
+                    out[k] = ids.setdefault(m[k], len(ids))
+                return out
+            for name, (fsec, fpos, rsec, rpos, proto) in byop.items():
+                if classes(fsec) == classes(rsec):  # the signature follows the secret (or is simply constant)
+                    stats["secret-determined"] += 1
+                    for sec, (h, n) in sorted(fsec.items()):
+                        events.append({"op": "ct", "cfg": lab, "name": "machine-%s/%s" % (kind, name), "control": proto["control"], "secret": sec,
+                                       "sig": [int(h[i:i + 2], 16) for i in range(0, 16, 2)], "n": n, "seq": 0})
+                elif classes(fpos) == classes(rpos):
+                    stats["position-determined"] += 1
+                    notes.append("machine-%s/%s (%s): signature follows the position in the run, not the secret (process artefact): not judged"
+                                   % (kind, name, lab))
+                else:
+                    # sporadic deviations (the runtime's cooperative preemption detours through a function prologue, stack growth):
+                    # a secret counts as deviating only if it leaves the majority signature of BOTH runs
+                    def majority(m):
+                        cnt = {}
+                        for v in m.values():
+                            cnt[v] = cnt.get(v, 0) + 1
+                        top = sorted(cnt.items(), key=lambda kv: -kv[1])
+                        return None if (len(top) > 1 and top[0][1] == top[1][1]) else top[0][0]
+                    mf, mr = majority(fsec), majority(rsec)
+                    if proto["control"] or mf is None or mr is None or set(fsec) != set(rsec):
+                        stats["undetermined"] += 1
+                        notes.append("machine-%s/%s (%s): signature follows neither secret nor position: not judged" % (kind, name, lab))
+                        continue
+                    stats["sporadic-filtered"] += 1
+                    for sec in sorted(fsec):
+                        h, n = fsec[sec] if (fsec[sec] != mf and rsec[sec] != mr) else mf
+                        events.append({"op": "ct", "cfg": lab, "name": "machine-%s/%s" % (kind, name), "control": False, "secret": sec,
+                                       "sig": [int(h[i:i + 2], 16) for i in range(0, 16, 2)], "n": n, "seq": 0})
+        return events, stats
+
+    def deviating(events):
+        """{operation name: frozenset of secrets outside the majority signature} for the non-control operations that show more
+        than one signature."""
+        byname = {}
+        for e in events:
+            if not e["control"]:
+                byname.setdefault(e["name"], {})[e["secret"]] = tuple(e["sig"])
+        out = {}
+        for name, m in byname.items():
+            if len(set(m.values())) > 1:
+                cnt = {}
+                for v in m.values():
+                    cnt[v] = cnt.get(v, 0) + 1
+                maj = max(cnt.items(), key=lambda kv: kv[1])[0]
+                out[name] = frozenset(k for k, v in m.items() if v != maj)
+        return out
+
+    notes = []
+    events, stats = analyse(*pair(), notes)
+    dev = deviating(events)
+    if dev:
+        # a dependence on the secret is a deterministic function of the secret: it shows again, for the same secrets, in a second
+        # independent pair of runs.  What the Go runtime does to a trace under load (a detour that happens to hit the same secret in
+        # both runs of one pair) does not.  Only deviations confirmed by the second pair are handed to the monitor.
+        notes2 = []
+        events2, _ = analyse(*pair(), notes2)
+        dev2 = deviating(events2)
+        for name in list(dev):
+            if dev2.get(name) != dev[name]:
+                stats["unconfirmed-filtered"] = stats.get("unconfirmed-filtered", 0) + 1
+                notes.append("%s (%s): secrets %s deviate in one pair of runs, %s in the confirmation pair: not a function of the secret, "
+                             "not judged" % (name, lab, sorted(dev[name]), sorted(dev2.get(name, []))))
+                events = [e for e in events if e["name"] != name]
+    R.notes += notes
     R.cov.setdefault("machine_level", {})[lab] = stats
     out = os.path.join(d, "C08m-%s-00.ndjson" % lab)
     with open(out, "w") as f:
